@@ -211,6 +211,14 @@ func ParseCopySource(copySourceHeader string) (string, string, string, error) {
 		return "", "", "", s3err.GetAPIError(s3err.ErrInvalidCopySource)
 	}
 
+	// the source is joined into file system paths by the backends: dot
+	// segments would resolve to another bucket or outside the gateway root
+	for _, seg := range strings.Split(copySource, "/") {
+		if seg == "." || seg == ".." {
+			return "", "", "", s3err.GetAPIError(s3err.ErrInvalidCopySource)
+		}
+	}
+
 	return srcBucket, srcObject, versionId, nil
 }
 
